@@ -134,8 +134,36 @@ func (e *Env) Basic(t *rapid.T) *transaction.Transaction {
 	bal := sim.ViewOf(h.Cur.B).Balance(from.ID)
 	f := fee(t)
 	var txn *transaction.Transaction
-	kind := rapid.SampledFrom([]string{"send", "send", "send", "data", "badtype", "pour", "pour", "refill", "garbage", "garbage", "replay", "skip", "past"}).Draw(t, "kind")
+	kind := rapid.SampledFrom([]string{"send", "send", "send", "data", "badtype", "pour", "pour", "refill", "garbage", "garbage", "replay", "skip", "past", "puppet", "puppet", "alias", "ghost"}).Draw(t, "kind")
 	switch kind {
+	case "puppet":
+		e.note("kind/puppet")
+		return e.Puppet(t)
+	case "alias":
+		// the sender's own id in another letter case: hex decoding ignores case, the id string is what every
+		// self-transfer guard and the balance cache key on. The real admission step (ComputeProperties ->
+		// VerifyPublicKeyClientID) must refuse it; only if it does not is the transaction executed.
+		to := from.ID
+		if rapid.Bool().Draw(t, "aliasToOther") {
+			to = e.recipient(t, from)
+		}
+		txn = h.Tx(from, to, Amount(t, "value", bal, uint64(f)), f, transaction.TxnTypeSend, "")
+		alias := otherCase(from.ID, rapid.IntRange(0, 5).Draw(t, "aliasDigit"))
+		txn.ClientID = alias
+		txn.Hash = txn.ComputeHash()
+		if err := txn.ComputeProperties(); err != nil || alias == from.ID {
+			e.note("alias/refused-at-admission")
+			txn = h.Tx(from, e.recipient(t, from), Amount(t, "value2", bal, uint64(f)), f, transaction.TxnTypeSend, "")
+		} else {
+			e.note("alias/ADMITTED")
+		}
+	case "ghost":
+		// a sender the state has never seen (no account entry): value 0, fee 0, any nonce
+		g := sim.NewWallet("ghost", rapid.IntRange(0, 2).Draw(t, "ghost"))
+		h.Know(g.ID, g.Name)
+		txn = h.Tx(g, e.recipient(t, g), 0, 0, rapid.SampledFrom([]int{transaction.TxnTypeSend, transaction.TxnTypeData}).Draw(t, "ghostType"), "")
+		txn.Nonce = h.StateNonce(g.ID) + int64(rapid.SampledFrom([]int{1, 2, 1, 5, 0}).Draw(t, "ghostNonce"))
+		txn.Hash = txn.ComputeHash()
 	case "send":
 		txn = h.Tx(from, e.recipient(t, from), Amount(t, "value", bal, uint64(f)), f, transaction.TxnTypeSend, "")
 	case "data":
@@ -190,8 +218,12 @@ func (e *Env) FailingCall(t *rapid.T) *transaction.Transaction {
 			return txn
 		}
 	}
-	if rapid.IntRange(0, 2).Draw(t, "semiValid") == 1 {
+	switch rapid.IntRange(0, 5).Draw(t, "semiValid") {
+	case 1, 2:
 		return e.SemiValid(t)
+	case 4:
+		e.note("fail/puppet")
+		return e.Puppet(t)
 	}
 	h := e.H
 	ws := e.Wallets()
@@ -370,6 +402,90 @@ func (e *Env) FanOut(t *rapid.T) *transaction.Transaction {
 	}
 	txn := h.Call(from, sim.StorageSC, "new_allocation_request", in, currency.Coin(rapid.SampledFrom([]uint64{1e10, 1e11, 0}).Draw(t, "lock")), fee(t))
 	e.note("fanout/new_allocation_request")
+	e.Past = append(e.Past, txn)
+	return txn
+}
+
+
+// otherCase returns id with its k-th hex letter (a-f) turned to upper case (id itself when it has fewer letters).
+func otherCase(id string, k int) string {
+	b := []byte(id)
+	for i, c := range b {
+		if c >= 'a' && c <= 'f' {
+			if k == 0 {
+				b[i] = c - 'a' + 'A'
+				return string(b)
+			}
+			k--
+		}
+	}
+	return id
+}
+
+// Puppet draws a call of the harness' puppet contract (sim/puppet.go): it takes the transaction's value, queues 0..4
+// payouts from the contract's wallet with amounts at the boundaries of what that wallet will hold, writes or deletes a
+// few state nodes and then succeeds or fails.
+func (e *Env) Puppet(t *rapid.T) *transaction.Transaction {
+	h := e.H
+	ws := e.Wallets()
+	from := ws[rapid.IntRange(0, len(ws)-1).Draw(t, "from")]
+	v := sim.ViewOf(h.Cur.B)
+	bal, pbal := v.Balance(from.ID), v.Balance(sim.PuppetSC)
+	f := fee(t)
+	var value currency.Coin
+	switch rapid.IntRange(0, 3).Draw(t, "puppetValue") {
+	case 0:
+		value = 0
+	case 1:
+		value = currency.Coin(rapid.SampledFrom([]uint64{1e10, 1e9, 1, 5e10}).Draw(t, "deposit"))
+	default:
+		value = Amount(t, "value", bal, uint64(f))
+	}
+	a := sim.PuppetAction{TakeValue: rapid.IntRange(0, 4).Draw(t, "takeValue") != 3}
+	have := pbal
+	if a.TakeValue && uint64(value) <= bal {
+		have += uint64(value)
+	}
+	n := rapid.IntRange(0, 4).Draw(t, "payouts")
+	left := have
+	for i := 0; i < n; i++ {
+		var amt uint64
+		switch rapid.IntRange(0, 8).Draw(t, "payoutKind") {
+		case 0:
+			amt = left // exactly what is left
+		case 1:
+			amt = left + 1 // one more than is left: this payout cannot be paid
+		case 2:
+			amt = left / 2
+		case 3:
+			amt = 0
+		case 4:
+			amt = 1
+		case 5:
+			amt = rapid.SampledFrom([]uint64{1 << 63, math.MaxUint64, uint64(config.MaxTokenSupply) + 1}).Draw(t, "huge")
+		default:
+			if left > 0 {
+				amt = rapid.Uint64Range(1, left).Draw(t, "payout")
+			}
+		}
+		a.Payouts = append(a.Payouts, sim.PuppetPayout{To: e.recipient(t, from), Amount: amt})
+		if amt <= left {
+			left -= amt
+		}
+	}
+	for i, k := 0, rapid.IntRange(0, 2).Draw(t, "writes"); i < k; i++ {
+		w := sim.PuppetWrite{Key: fmt.Sprintf("k%d", rapid.IntRange(0, 3).Draw(t, "key")), Val: rapid.SampledFrom([]string{"a", "b", "", "a"}).Draw(t, "val")}
+		w.Delete = rapid.IntRange(0, 4).Draw(t, "delete") == 2
+		a.Writes = append(a.Writes, w)
+	}
+	if rapid.IntRange(0, 3).Draw(t, "fail") == 2 {
+		a.Fail = "puppet told to fail"
+	}
+	txn := h.PuppetCall(from, a, value, f)
+	e.note(fmt.Sprintf("puppet/payouts=%d", n))
+	if a.Fail != "" {
+		e.note("puppet/told-to-fail")
+	}
 	e.Past = append(e.Past, txn)
 	return txn
 }
